@@ -11,7 +11,8 @@ RULE = (
     "and project-wide absence lists, all nine task rules, runs cut by max_time too) simulated once; "
     "every cost log entry of every level is recomputed from the state logs and the spec; the same is re-checked "
     "after 0-2 generated remove/insert_absence_time_list edits of the result (indices inside the run, at its last "
-    "step and just beyond its end). "
+    "step and just beyond its end); one run in three is paused at a generated step and continued with both "
+    "initialize flags off before it is checked. "
     "Non-trivial = at least two resources with different non-zero rates of which one is logged "
     "WORKING at a step where another one is idle or absent; distinct by canonical spec hash."
 )
@@ -20,7 +21,7 @@ ASSUMPTIONS = [
     "dyadic cost values are compared exactly, float-mode values with relative tolerance 1e-9",
 ]
 
-CFG = gen.Cfg(facilities=True, float_mode=5, max_time=[40, 80], abs_p=2, abs_size=6, abs_max=12)
+CFG = gen.Cfg(warm=4, facilities=True, float_mode=5, max_time=[40, 80], abs_p=2, abs_size=6, abs_max=12)
 
 
 def strategy(tier):
@@ -38,6 +39,9 @@ def strategy(tier):
                 max_size=2,
             )
         )
+        # ... and when the run was paused at a step and continued (both initialize flags off)
+        if draw(st.integers(0, 2)) == 0:
+            spec["pause"] = draw(st.integers(0, 12))
         return spec
 
     return case()
@@ -57,9 +61,15 @@ def _eq(a, b, tol):
 
 def check(spec):
     res = Result()
-    h = S.build(spec)
+    h = S.warm_build(spec)
     p = h.project
-    S.simulate(p, spec["opts"])
+    if spec.get("pause") is not None:
+        S.simulate(p, dict(spec["opts"], max_time=spec["pause"]))
+        S.simulate(p, spec["opts"], initialize_state_info=False, initialize_log_info=False)
+        res.cls("paused_and_continued")
+    else:
+        S.simulate(p, spec["opts"])
+    res.cls("warm_" + str((spec.get("warm") or {}).get("mode")), bool(spec.get("warm")))
     check_costs(spec, h, res)
     nt = res.nontrivial
     for op in spec.get("edits", []):
